@@ -398,7 +398,6 @@ func replaceChild(parent ast.Node, old, repl ast.Expr) {
 	}
 }
 
-
 // negLeaves counts the negative leaves (`!x`, `a != b`) of a boolean expression read as it stands, or negated.
 func negLeaves(e ast.Expr, negated bool) int {
 	switch x := ast.Unparen(e).(type) {
